@@ -144,6 +144,7 @@ type Call struct {
 	Key     string
 	Data    []byte
 	lazy    *bytes.Reader // payload still to be read when the call lands (see lazyPayload)
+	NoFault bool          // never a fault point (in-memory yield points)
 	CRC     uint32
 	HasCRC  bool
 	Token   string
